@@ -32,6 +32,8 @@ def make_tree(base):
     w("root/src/other/h.h", "int from_other;\n")
     w("root/alt/inc/h.h", "int from_alt;\n")
     w("root/alt/sub/f.c", '#include <h.h>\nint f;\n')      # a second file that two directories spell "f.c"
+    w("root/src/sub/g.c", '#include <own.h>\nint g;\n')      # needs -I . (its own directory) for the angle form
+    w("root/src/sub/own.h", "int own;\n")
     w("root/src/sub/f.o", "\x7fELF")
     w("root/src/sub/unused.c", "int unused;\n")
     return root
@@ -85,6 +87,9 @@ def good_entries(base, root):
                 "exp_file": os.path.join(root, "src/sub/f.c"), "exp_inc": [os.path.join(root, "src/inc")], "cwd": os.path.join(root, "src/sub")})
     out.append({"name": "same-rel-file-from-alt", "entry": {"file": "f.c", "directory": "alt/sub", "arguments": ["/usr/bin/gcc", "-c", "-I", "../inc", "f.c"]},
                 "exp_file": os.path.join(root, "alt/sub/f.c"), "exp_inc": [os.path.join(root, "alt/inc")], "cwd": os.path.join(root, "alt/sub")})
+    # -I naming the compiled file's own directory is an include directory like any other (an angle include needs it)
+    out.append({"name": "I-own-directory", "entry": {"file": "g.c", "directory": os.path.join(root, "src/sub"), "arguments": ["/usr/bin/gcc", "-c", "-I", ".", "g.c"]},
+                "exp_file": os.path.join(root, "src/sub/g.c"), "exp_inc": [os.path.join(root, "src/sub")], "cwd": os.path.join(root, "src/sub")})
     return out
 
 
@@ -156,6 +161,10 @@ def judge(base, root, entries, with_attr=True):
         else:
             want = set()
             for e in good:
+                if e["name"] == "I-own-directory":
+                    if a.get("src/sub/own.h", 0) != 1 or a.get("src/sub/g.c", 0) != 2:
+                        bad.append(("attribution", "g.c and the header found through -I . fully used", a))
+                    continue
                 want.add(os.path.relpath(os.path.join(e["exp_inc"][0], "h.h"), root))
             for hdr in ("src/inc/h.h", "src/other/h.h", "alt/inc/h.h"):
                 if (a.get(hdr, 0) > 0) != (hdr in want):
@@ -239,7 +248,7 @@ def _relx(x, base):
     return json.loads(json.dumps(x, default=str).replace(base, "$BASE"))
 
 
-REPRESENTATIVE = ["same-rel-file-from-sub", "same-rel-file-from-alt", "same-rel-I-from-src", "same-rel-I-from-alt", "absent/rel/rel-separate", "abs-root/abs/abs", "abs-build-inside/rel/rel-attached", "abs-build-outside/abs/rel-other",
+REPRESENTATIVE = ["I-own-directory", "same-rel-file-from-sub", "same-rel-file-from-alt", "same-rel-I-from-src", "same-rel-I-from-alt", "absent/rel/rel-separate", "abs-root/abs/abs", "abs-build-inside/rel/rel-attached", "abs-build-outside/abs/rel-other",
                   "rel-build/rel/rel-separate", "rel-dotdot/redundant/rel-dotdot", "rel-dot/dot-rel/rel-dot", "abs-build-outside/rel/rel-attached"]
 
 
